@@ -6,7 +6,9 @@
 // schedule, the canonical event log and the final structure (the lines the Lean
 // small-step model must reproduce) and evaluates the implementation-side
 // oracles: linearizability (C03/C04/C05), deadlock (C06), lock state at rest
-// (C09), lock coupling (C10), shape at quiescence (C08).
+// (C09), lock coupling (C10), shape at quiescence (C08), and - when enabled by
+// -writeframe or a case's `opt writeframe` line - the write frame of every
+// scheduler step (C07).
 package main
 
 import (
@@ -15,9 +17,11 @@ import (
 	"fmt"
 	"math/rand"
 	"os"
+	"reflect"
 	"sort"
 	"strconv"
 	"strings"
+	"unsafe"
 
 	"github.com/karrick/gobptree"
 	"github.com/karrick/gobptree/vsync"
@@ -39,6 +43,9 @@ type caseSpec struct {
 	threads  [][]clientOp
 	strategy []string
 	id       string
+	// engine options (command-line defaults, overridden by the case's `opt` line)
+	writeframe  bool // C07: diff the structure around every scheduler step
+	yieldUnlock bool // Unlock is a scheduling point too
 }
 
 var out *bufio.Writer
@@ -108,6 +115,25 @@ func parseOps(s string) []clientOp {
 
 type oracleMsg struct{ kind, detail string }
 
+// opRec is one client operation of a run.
+type opRec struct {
+	op       clientOp
+	inv, ret int
+	res      string
+	cbArgs   []string
+	atInv    map[*vsync.Mutex]bool // mutexes of the nodes in the tree at invocation
+}
+
+// curOpOf returns the operation task tid is executing (its latest started one).
+func curOpOf(recs [][]*opRec, tid int) *opRec {
+	for i := len(recs[tid]) - 1; i >= 0; i-- {
+		if recs[tid][i] != nil {
+			return recs[tid][i]
+		}
+	}
+	return nil
+}
+
 func runCase(cs *caseSpec, rng *rand.Rand, replay []int, record bool) (sched []int, lines []string, oracles []oracleMsg, enabledSets [][]int) {
 	tr, err := adapter.New(cs.ty, cs.order)
 	if err != nil || tr == nil {
@@ -135,13 +161,6 @@ func runCase(cs *caseSpec, rng *rand.Rand, replay []int, record bool) (sched []i
 			init[canonKey(cs.ty, k)] = fmtVal(v)
 		}
 		c.Close()
-	}
-	type opRec struct {
-		op       clientOp
-		inv, ret int
-		res      string
-		cbArgs   []string
-		atInv    map[*vsync.Mutex]bool // mutexes of the nodes in the tree at invocation
 	}
 	recs := make([][]*opRec, len(cs.threads))
 	var s *vsync.Sched
@@ -229,11 +248,28 @@ func runCase(cs *caseSpec, rng *rand.Rand, replay []int, record bool) (sched []i
 		})
 	}
 	s = vsync.New(fns)
+	s.UnlockYields = cs.yieldUnlock
 	step := 0
 	rankBad := false
 	rankStates := 0
+	// C07 oracle (Lean: C07_write_frame): the step of task g that runs between two
+	// scheduling decisions changes own fields only of nodes whose mutex g held when
+	// the step began or acquired during it, and moves the root pointer only under
+	// rootMutex. wfPrev is the structure before the step in progress, wfMay the
+	// mutexes of that step (grown by OnAcquire), wfTid its task.
+	var wf *wfState
+	if cs.writeframe {
+		wf = &wfState{tr: tr, rootMutex: findRootMutex(tr), everNode: map[*vsync.Mutex]bool{}}
+	}
 	s.Choose = func(st int, enabled []int) int {
 		enabledSets = append(enabledSets, append([]int(nil), enabled...))
+		var snapNow *gobptree.VerifNode
+		if wf != nil {
+			snapNow = tr.Snapshot()
+			if msg := wf.endStep(snapNow); msg != "" {
+				oracles = append(oracles, oracleMsg{"writeframe", msg})
+			}
+		}
 		// C06 oracle (Lean: Ranked (levelRank tree)): in this state every task parked in
 		// Lock() wants a mutex that comes after all it holds in the level order of the tree
 		// (rootMutex, root, then level by level, left to right)
@@ -246,7 +282,10 @@ func runCase(cs *caseSpec, rng *rand.Rand, replay []int, record bool) (sched []i
 					continue
 				}
 				if rank == nil {
-					rank = levelRank(tr.Snapshot())
+					if snapNow == nil {
+						snapNow = tr.Snapshot()
+					}
+					rank = levelRank(snapNow)
 					rankStates++
 				}
 				rw := rank[wants[i]]
@@ -278,18 +317,21 @@ func runCase(cs *caseSpec, rng *rand.Rand, replay []int, record bool) (sched []i
 		}
 		step++
 		sched = append(sched, pick)
+		if wf != nil {
+			what := ""
+			if r := curOpOf(recs, pick); r != nil {
+				what = r.op.text
+			}
+			wf.beginStep(snapNow, pick, step-1, what, s.HeldBy(pick))
+		}
 		return pick
 	}
 	// C10 oracle: lock coupling of point operations and NewScanner
-	curOp := func(tid int) *opRec {
-		for i := len(recs[tid]) - 1; i >= 0; i-- {
-			if recs[tid][i] != nil {
-				return recs[tid][i]
-			}
-		}
-		return nil
-	}
+	curOp := func(tid int) *opRec { return curOpOf(recs, tid) }
 	s.OnAcquire = func(tid int, m *vsync.Mutex, heldBefore []*vsync.Mutex) {
+		if wf != nil {
+			wf.acquired(tid, m)
+		}
 		r := curOp(tid)
 		if r == nil {
 			return
@@ -319,6 +361,12 @@ func runCase(cs *caseSpec, rng *rand.Rand, replay []int, record bool) (sched []i
 		}
 	}
 	s.Run()
+	if wf != nil {
+		// the last step (and the step that ended in a deadlock, panic or abort)
+		if msg := wf.endStep(tr.Snapshot()); msg != "" {
+			oracles = append(oracles, oracleMsg{"writeframe", msg})
+		}
+	}
 	// ---- canonical output
 	midName := map[int]string{}
 	for _, e := range s.Log {
@@ -341,6 +389,9 @@ func runCase(cs *caseSpec, rng *rand.Rand, replay []int, record bool) (sched []i
 		}
 	}
 	lines = append(lines, fmt.Sprintf("# lockorder states %d", rankStates))
+	if wf != nil {
+		lines = append(lines, fmt.Sprintf("# writeframe steps %d nodes %d changed %d yieldunlock %v rootmutex %v", wf.steps, wf.nodes, wf.changed, cs.yieldUnlock, wf.rootMutex != nil))
+	}
 	if s.Deadlock != "" {
 		lines = append(lines, "deadlock")
 		oracles = append(oracles, oracleMsg{"deadlock", s.Deadlock})
@@ -638,6 +689,8 @@ func minKey(ty string) string {
 
 func main() {
 	dfsMax := flag.Int("dfs-max", 20000, "maximum number of schedules per dfs case")
+	wfFlag := flag.Bool("writeframe", false, "C07 write-frame oracle: diff the structure around every scheduler step")
+	yuFlag := flag.Bool("yieldunlock", false, "Unlock is a scheduling point too (a goroutine parks, enabled, right after releasing)")
 	flag.Parse()
 	in := bufio.NewScanner(os.Stdin)
 	in.Buffer(make([]byte, 1<<20), 1<<26)
@@ -654,8 +707,22 @@ func main() {
 		switch f[0] {
 		case "cbegin":
 			o, _ := strconv.Atoi(f[2])
-			cs = &caseSpec{ty: f[1], order: o, id: strconv.Itoa(caseNo)}
+			cs = &caseSpec{ty: f[1], order: o, id: strconv.Itoa(caseNo), writeframe: *wfFlag, yieldUnlock: *yuFlag}
 			caseNo++
+		case "opt":
+			// per-case engine options, so that a replay file carries them
+			for _, o := range f[1:] {
+				switch o {
+				case "writeframe":
+					cs.writeframe = true
+				case "yieldunlock":
+					cs.yieldUnlock = true
+				case "nowriteframe":
+					cs.writeframe = false
+				case "noyieldunlock":
+					cs.yieldUnlock = false
+				}
+			}
 		case "pre":
 			cs.pre = append(cs.pre, strings.Join(f[1:], " "))
 		case "thread":
@@ -712,6 +779,7 @@ func runStrategy(cs *caseSpec, dfsMax int) {
 		runs, bad := 0, 0
 		seenKinds := map[string]int{}
 		emitAll := len(cs.strategy) > 1 && cs.strategy[1] == "all"
+		wfSteps, wfNodes := 0, 0 // over the runs that are not emitted
 		for {
 			sched, lines, oracles, en := runCase(cs, nil, prefix, true)
 			runs++
@@ -727,6 +795,16 @@ func runStrategy(cs *caseSpec, dfsMax int) {
 			}
 			if emitAll || newKind || runs == 1 {
 				emitRun(cs, sched, lines, oracles)
+			} else if cs.writeframe {
+				for _, l := range lines {
+					if strings.HasPrefix(l, "# writeframe steps ") {
+						f := strings.Fields(l)
+						a, _ := strconv.Atoi(f[3])
+						b, _ := strconv.Atoi(f[5])
+						wfSteps += a
+						wfNodes += b
+					}
+				}
 			}
 			// next schedule: backtrack to the deepest decision with an untried alternative
 			i := len(sched) - 1
@@ -739,9 +817,242 @@ func runStrategy(cs *caseSpec, dfsMax int) {
 				}
 			}
 			if i < 0 || runs >= dfsMax {
-				fmt.Fprintf(out, "dfs case %s runs %d bad %d exhaustive %v\n", cs.id, runs, bad, i < 0)
+				if cs.writeframe {
+					fmt.Fprintf(out, "dfs case %s runs %d bad %d exhaustive %v wfsteps %d wfnodes %d\n", cs.id, runs, bad, i < 0, wfSteps, wfNodes)
+				} else {
+					fmt.Fprintf(out, "dfs case %s runs %d bad %d exhaustive %v\n", cs.id, runs, bad, i < 0)
+				}
 				break
 			}
 		}
 	}
+}
+
+// ---------------------------------------------------------------------------
+// C07 write-frame oracle
+
+// wfState carries the oracle across the scheduling decisions of one run.
+type wfState struct {
+	tr                    adapter.Tree
+	rootMutex             *vsync.Mutex          // the tree's rootMutex field, nil if the type has none
+	everNode              map[*vsync.Mutex]bool // every mutex that ever guarded a node of a snapshot
+	prev                  *gobptree.VerifNode   // structure before the step in progress (nil: no step)
+	tid, step             int
+	what                  string
+	may                   map[*vsync.Mutex]bool // held when the step began + acquired during it
+	reported              bool
+	steps, nodes, changed int
+}
+
+// findRootMutex locates the field `rootMutex` of the tree behind the adapter by
+// reflection (the adapter wraps a pointer to the tree as its only field). In the
+// shadow build the field's type is vsync.Mutex.
+func findRootMutex(tr adapter.Tree) (m *vsync.Mutex) {
+	defer func() {
+		if recover() != nil {
+			m = nil
+		}
+	}()
+	v := reflect.ValueOf(tr)
+	for v.Kind() == reflect.Ptr || v.Kind() == reflect.Interface {
+		v = v.Elem()
+	}
+	if v.Kind() != reflect.Struct || v.NumField() == 0 {
+		return nil
+	}
+	t := v.Field(0)
+	for t.Kind() == reflect.Ptr || t.Kind() == reflect.Interface {
+		t = t.Elem()
+	}
+	if t.Kind() != reflect.Struct {
+		return nil
+	}
+	f := t.FieldByName("rootMutex")
+	if !f.IsValid() || !f.CanAddr() || f.Type() != reflect.TypeOf(vsync.Mutex{}) {
+		return nil
+	}
+	return (*vsync.Mutex)(unsafe.Pointer(f.UnsafeAddr()))
+}
+
+func wfIndex(n *gobptree.VerifNode, acc map[interface{}]*gobptree.VerifNode) {
+	if n == nil || n.Truncated {
+		return
+	}
+	if _, seen := acc[n.Self]; seen {
+		return
+	}
+	acc[n.Self] = n
+	for _, c := range n.Children {
+		wfIndex(c, acc)
+	}
+}
+
+func wfIdent(n *gobptree.VerifNode) interface{} {
+	if n == nil {
+		return nil
+	}
+	if n.Truncated {
+		return "truncated"
+	}
+	return n.Self
+}
+
+func (w *wfState) beginStep(snap *gobptree.VerifNode, tid, step int, what string, held []*vsync.Mutex) {
+	w.prev, w.tid, w.step, w.what = snap, tid, step, what
+	w.may = make(map[*vsync.Mutex]bool, len(held)+2)
+	for _, h := range held {
+		w.may[h] = true
+	}
+}
+
+func (w *wfState) acquired(tid int, m *vsync.Mutex) {
+	if w.prev != nil && tid == w.tid {
+		w.may[m] = true
+	}
+}
+
+func (w *wfState) keyEq(a, b interface{}) bool {
+	switch a.(type) {
+	case int32, int64, uint32, uint64, string:
+		return a == b
+	}
+	return w.tr.FmtKey(a) == w.tr.FmtKey(b)
+}
+
+func valEq(a, b interface{}) bool {
+	switch a.(type) {
+	case nil, int64, int, string, bool:
+		return a == b
+	}
+	return fmt.Sprintf("%v", a) == fmt.Sprintf("%v", b)
+}
+
+func (w *wfState) fmtKeys(ks []interface{}) string {
+	out := make([]string, len(ks))
+	for i, k := range ks {
+		out[i] = w.tr.FmtKey(k)
+	}
+	return "[" + strings.Join(out, " ") + "]"
+}
+
+func fmtVals(vs []interface{}) string {
+	out := make([]string, len(vs))
+	for i, v := range vs {
+		out[i] = fmt.Sprintf("%v", v)
+	}
+	return "[" + strings.Join(out, " ") + "]"
+}
+
+// endStep compares the structure before the step in progress with `now` and
+// returns a description of the first write outside the frame ("" if none).
+func (w *wfState) endStep(now *gobptree.VerifNode) string {
+	if w.prev == nil {
+		return ""
+	}
+	before := map[interface{}]*gobptree.VerifNode{}
+	after := map[interface{}]*gobptree.VerifNode{}
+	wfIndex(w.prev, before)
+	wfIndex(now, after)
+	prevRoot, nowRoot := wfIdent(w.prev), wfIdent(now)
+	w.prev = nil
+	w.steps++
+	for _, n := range before {
+		w.everNode[n.Mutex] = true
+	}
+	for _, n := range after {
+		w.everNode[n.Mutex] = true
+	}
+	var msgs []string
+	kindOf := func(n *gobptree.VerifNode) string {
+		if n.Internal {
+			return "internal node"
+		}
+		return "leaf"
+	}
+	bad := func(field string, n *gobptree.VerifNode, detail string) {
+		msgs = append(msgs, fmt.Sprintf("%s of a pre-existing %s %s written by task %d (%s) in step %d without holding its mutex: %s",
+			field, kindOf(n), w.fmtKeys(n.Runts), w.tid, w.what, w.step, detail))
+	}
+	for id, b := range before {
+		w.nodes++
+		a := after[id]
+		if a == nil {
+			w.changed++
+			if !w.may[b.Mutex] {
+				bad("membership", b, "the node left the tree")
+			}
+			continue
+		}
+		field, detail := "", ""
+		if len(a.Runts) != len(b.Runts) {
+			field, detail = "runts", w.fmtKeys(b.Runts)+" -> "+w.fmtKeys(a.Runts)
+		} else {
+			for i := range b.Runts {
+				if !w.keyEq(b.Runts[i], a.Runts[i]) {
+					field, detail = "runts", w.fmtKeys(b.Runts)+" -> "+w.fmtKeys(a.Runts)
+					break
+				}
+			}
+		}
+		if field == "" {
+			if len(a.Values) != len(b.Values) {
+				field, detail = "values", fmtVals(b.Values)+" -> "+fmtVals(a.Values)
+			} else {
+				for i := range b.Values {
+					if !valEq(b.Values[i], a.Values[i]) {
+						field, detail = "values", fmtVals(b.Values)+" -> "+fmtVals(a.Values)
+						break
+					}
+				}
+			}
+		}
+		if field == "" && a.Next != b.Next {
+			field, detail = "next", "the next pointer moved"
+		}
+		if field == "" {
+			if len(a.Children) != len(b.Children) {
+				field, detail = "children", fmt.Sprintf("%d -> %d children", len(b.Children), len(a.Children))
+			} else {
+				for i := range b.Children {
+					if wfIdent(b.Children[i]) != wfIdent(a.Children[i]) {
+						field, detail = "children", fmt.Sprintf("child %d is another node", i)
+						break
+					}
+				}
+			}
+		}
+		if field == "" && (a.Internal != b.Internal || a.Mutex != b.Mutex) {
+			field, detail = "identity", "kind or mutex of the node changed"
+		}
+		if field != "" {
+			w.changed++
+			if !w.may[b.Mutex] {
+				bad(field, b, detail)
+			}
+		}
+	}
+	if prevRoot != nowRoot {
+		w.changed++
+		ok := false
+		if w.rootMutex != nil {
+			ok = w.may[w.rootMutex]
+		} else {
+			// no rootMutex field found: like the coupling oracle, a held mutex that never
+			// guarded a node is the tree-level lock
+			for m := range w.may {
+				if !w.everNode[m] {
+					ok = true
+				}
+			}
+		}
+		if !ok {
+			msgs = append(msgs, fmt.Sprintf("root pointer moved by task %d (%s) in step %d without holding rootMutex", w.tid, w.what, w.step))
+		}
+	}
+	if len(msgs) == 0 || w.reported {
+		return ""
+	}
+	w.reported = true // one report per run
+	sort.Strings(msgs)
+	return strings.Join(msgs, " || ")
 }
